@@ -458,7 +458,9 @@ func TestVerifC17RawRequest(t *testing.T) {
 	verifkit.Run(t, "C17RawRequest", verifkit.Spec[vfRawReq]{
 		Gen: func(t *rapid.T) vfRawReq {
 			c := vfRawReq{H2: rapid.Bool().Draw(t, "h2"), Verb: rapid.SampledFrom([]string{"POST", "POST", "GET", "PUT"}).Draw(t, "verb")}
-			c.Path = rapid.SampledFrom([]string{"/connectrpc.conformance.v1.ConformanceService/Unary", "/some/other/path", "/"}).Draw(t, "path")
+			c.Path = rapid.SampledFrom([]string{"/connectrpc.conformance.v1.ConformanceService/Unary", "/some/other/path", "/",
+				// (paths a URL library would "clean up": they go out as given)
+				"/Svc/../Svc/Unary", "/./a/./b", "/a/b/..", "/a//b", "/a/b/"}).Draw(t, "path")
 			c.URIQuery = rapid.SampledFrom([]string{"", "", "a=1", "a=1&b=two&a=3", "encoding=proto&connect=v1"}).Draw(t, "uriQuery")
 			names := []string{"a", "b", "message", "encoding", "x y", "base64"}
 			for i, n := 0, rapid.IntRange(0, 3).Draw(t, "nraw"); i < n; i++ {
